@@ -8,13 +8,14 @@
 
 From Coq Require Import String List NArith Bool.
 Import ListNotations.
-From Teleport Require Import Gen.PanicSitesGen.
+From Teleport Require Import Gen.PanicSitesGen Proofs.HaltSitesBaseline Proofs.HaltSiteAuto.
 From Teleport Require Import Base.Bytes Base.Outcome Model.Rvesting Proofs.Rvesting Model.Halt Model.HaltAgg Proofs.Halt Proofs.HaltAgg.
 Local Open Scope string_scope.
 
 Inductive just :=
 | Guard (P : Type) (pf : P)
-| Benign
+| Benign            (* cannot fire because of what the expression itself is (constant key, decoded message, oracle ...) *)
+| BenignLocal       (* cannot fire because of code AROUND it in its function / of who calls the function: does not move *)
 | Unreachable
 | Finding
 | Open.
@@ -25,15 +26,15 @@ Definition is_open (j : just) : bool := match j with Open => true | _ => false e
 (* (file, function, kind, expression, justification, reason) *)
 Definition site_table : list (string * string * string * string * just * string) := [
   ("types/events.go", "EmitTypedEvent", "index", "event.Attributes[i]",
-   Benign, "indices supplied by sort.SliceStable");
+   BenignLocal, "indices supplied by sort.SliceStable");
   ("types/events.go", "EmitTypedEvent", "index", "event.Attributes[j]",
-   Benign, "indices supplied by sort.SliceStable");
+   BenignLocal, "indices supplied by sort.SliceStable");
   ("x/aggregate/genesis.go", "InitGenesis", "panic", "panic(""the aggregate module account has not been set"")",
    Benign, "the aggregate module account is in maccPerms");
   ("x/aggregate/keeper/evm.go", "Keeper.CallEVM", "lib", "abi.Pack(method, args...)",
    Benign, "ORACLE (trusted): go-ethereum abi.Pack on strings / addresses / uint8 and UnpackIntoInterface on contract output, ethermint ApplyMessage, account and bank keepers return a value or an error on these arguments (fields of aenv; the real ones run in the correspondence)");
   ("x/aggregate/keeper/evm.go", "Keeper.CallEVMWithData", "index", "txLogAttrs[i]",
-   Benign, "made with len(res.Logs)");
+   BenignLocal, "made with len(res.Logs)");
   ("x/aggregate/keeper/evm.go", "Keeper.CallEVMWithData", "lib", "k.accountKeeper.GetSequence(ctx, from.Bytes())",
    Benign, "ORACLE (trusted): go-ethereum abi.Pack on strings / addresses / uint8 and UnpackIntoInterface on contract output, ethermint ApplyMessage, account and bank keepers return a value or an error on these arguments (fields of aenv; the real ones run in the correspondence)");
   ("x/aggregate/keeper/evm.go", "Keeper.CallEVMWithData", "lib", "k.evmKeeper.ApplyMessage(ctx, msg, evmtypes.NewNoOpTracer(), true)",
@@ -55,9 +56,9 @@ Definition site_table : list (string * string * string * string * just * string)
   ("x/aggregate/keeper/proposals.go", "Keeper.DeployERC20Contract", "index", "coinMetadata.DenomUnits[0]",
    (Guard (@metadata_ok_units)), "Metadata.Validate requires a unit with the display denomination (metadata_ok_units; handle_aprop_safe)");
   ("x/aggregate/keeper/proposals.go", "Keeper.DeployERC20Contract", "index", "data[:len(erc20contracts.ERC20MinterBurnerDecimalsContract.Bin)]",
-   Benign, "data was made with len(Bin)+len(ctorArgs)");
+   BenignLocal, "data was made with len(Bin)+len(ctorArgs)");
   ("x/aggregate/keeper/proposals.go", "Keeper.DeployERC20Contract", "index", "data[len(erc20contracts.ERC20MinterBurnerDecimalsContract.Bin):]",
-   Benign, "data was made with len(Bin)+len(ctorArgs)");
+   BenignLocal, "data was made with len(Bin)+len(ctorArgs)");
   ("x/aggregate/keeper/proposals.go", "Keeper.DeployERC20Contract", "lib", "erc20contracts.ERC20MinterBurnerDecimalsContract.ABI.Pack( """", coinMetadata.Name, coinMetadata.Symbol, decimals, )",
    Benign, "ORACLE (trusted): go-ethereum abi.Pack on strings / addresses / uint8 and UnpackIntoInterface on contract output, ethermint ApplyMessage, account and bank keepers return a value or an error on these arguments (fields of aenv; the real ones run in the correspondence)");
   ("x/aggregate/keeper/proposals.go", "Keeper.DeployERC20Contract", "lib", "k.accountKeeper.GetSequence(ctx, types.ModuleAddress.Bytes())",
@@ -103,13 +104,11 @@ Definition site_table : list (string * string * string * string * just * string)
   ("x/aggregate/keeper/token_trace.go", "Keeper.EnableTimeBasedSupplyLimitInTransferContract", "lib", "endpointcontract.EndpointContract.ABI.Pack( ""enableTimeBasedSupplyLimit"", erc20Address, timePeriod, timeBasedLimit, maxAmount, minAmount, )",
    (Guard (@limits_ok_parse)), "abi.Pack dereferences the *big.Int arguments: ValidateBasic parsed the same four strings successfully (limits_ok_parse)");
   ("x/aggregate/types/proposal.go", "validateIBC", "index", "denomSplit[0]",
-   Benign, "strings.SplitN returns at least one element");
+   BenignLocal, "strings.SplitN returns at least one element");
   ("x/aggregate/types/token_pair.go", "TokenPair.GetID", "index", "tp.Denoms[0]",
    (Guard (@handle_aprop_safe, @ga_init_safe)), "pairs built by the handlers have >= 1 denomination, stored pairs by aenv_wf (aggregate_history_safe), genesis pairs by ga_init_safe: REGENERATED per-pair guard of GenesisState.Validate, obligation aggregate_pair_guards_denoms");
-  ("x/aggregate/types/utils.go", "EqualMetadata", "index", "a.DenomUnits[i]",
-   Benign, "lengths compared equal just above");
   ("x/aggregate/types/utils.go", "EqualMetadata", "index", "b.DenomUnits[i]",
-   Benign, "lengths compared equal just above");
+   BenignLocal, "lengths compared equal just above");
   ("x/rvesting/keeper/genesis.go", "Keeper.InitGenesis", "lib", "k.bankKeeper.SendCoinsFromAccountToModule(ctx, from, types.ModuleName, genesisState.InitReward)",
    Finding, "panic(err) #1 (bech32) is excluded by ValidateGenesis (gr_init_safe); panic(err) #2 fires when `from` does not hold init_reward: finding rvesting-genesis-unfunded-from (hypothesis covers of gr_init_safe; necessity: C15_rvesting_genesis_unfunded_refuted)");
   ("x/rvesting/keeper/genesis.go", "Keeper.InitGenesis", "panic", "panic(err)",
@@ -134,8 +133,6 @@ Definition site_table : list (string * string * string * string * just * string)
    (Guard (@begin_block_validated_no_panic)), "modelled in Model/Rvesting.v (begin_block); validated parameters never reach a panic (C20 lemmas begin_block_enabled / _disabled)");
   ("x/rvesting/module/abci.go", "BeginBlocker", "panic", "panic(err)",
    (Guard (@begin_block_validated_no_panic)), "modelled in Model/Rvesting.v (begin_block); validated parameters never reach a panic (C20 lemmas begin_block_enabled / _disabled)");
-  ("x/rvesting/types/param.go", "validatePerBlockReward", "lib", "rr.IsNegative()",
-   Benign, "a nil amount is rejected by the IsNil test just above");
   ("x/xibc/clients/light-clients/bsc/types/bsc.go", "BlockNonce.SetBytes", "index", "b[nonceByteLength-len(d):]",
    (Guard (@validate_bsc_facts)), "reached through ToBscHeader only; Header.ValidateBasic rejects len(Bloom) > 256 and len(Nonce) > 8 before converting (validate_bsc_facts); Initialize / UpgradeState do not convert the header");
   ("x/xibc/clients/light-clients/bsc/types/bsc.go", "BlockNonce.SetBytes", "panic", "panic(fmt.Sprintf(""bloom bytes too big %d %d"", len(b), len(d)))",
@@ -147,19 +144,19 @@ Definition site_table : list (string * string * string * string * just * string)
   ("x/xibc/clients/light-clients/bsc/types/bsc.go", "ParseValidators", "index", "extra[extraVanity : len(extra)-extraSeal]",
    (Guard (@parse_validators_safe)), "Header.ValidateBasic requires len(Extra) >= extraVanity+extraSeal: REGENERATED guards and constants, obligation bsc_guards_extra (validate_bsc_facts)");
   ("x/xibc/clients/light-clients/bsc/types/bsc.go", "ParseValidators", "index", "result[i]",
-   Benign, "i < n = len(validatorBytes)/20 and len(validatorBytes) is a multiple of 20 (checked just above)");
+   BenignLocal, "i < n = len(validatorBytes)/20 and len(validatorBytes) is a multiple of 20 (checked just above)");
   ("x/xibc/clients/light-clients/bsc/types/bsc.go", "ParseValidators", "index", "validatorBytes[i*addressLength : (i+1)*addressLength]",
-   Benign, "i < n = len(validatorBytes)/20 and len(validatorBytes) is a multiple of 20 (checked just above)");
+   BenignLocal, "i < n = len(validatorBytes)/20 and len(validatorBytes) is a multiple of 20 (checked just above)");
   ("x/xibc/clients/light-clients/bsc/types/client_state.go", "ClientState.Initialize", "div", "m.Header.Height.RevisionHeight % m.Epoch",
    (Guard (@validate_bsc_facts)), "Validate rejects Epoch = 0: REGENERATED guard of ClientState.Validate, obligation bsc_guards_epoch (lemma validate_bsc_facts; used by bsc_initialize_safe / bsc_upgrade_safe)");
   ("x/xibc/clients/light-clients/bsc/types/client_state.go", "ClientState.UpgradeState", "div", "m.Header.Height.RevisionHeight % m.Epoch",
    (Guard (@validate_bsc_facts)), "Validate rejects Epoch = 0: REGENERATED guard of ClientState.Validate, obligation bsc_guards_epoch (lemma validate_bsc_facts; used by bsc_initialize_safe / bsc_upgrade_safe)");
   ("x/xibc/clients/light-clients/bsc/types/header.go", "ecrecover", "index", "crypto.Keccak256(pubkey[1:])[12:]",
-   Benign, "crypto.Ecrecover returns a 65-byte public key when err == nil; Keccak256 returns 32 bytes");
+   BenignLocal, "crypto.Ecrecover returns a 65-byte public key when err == nil; Keccak256 returns 32 bytes");
   ("x/xibc/clients/light-clients/bsc/types/header.go", "ecrecover", "index", "header.Extra[len(header.Extra)-extraSeal:]",
    (Guard (@bsc_recover_safe)), "guarded by ecrecover's own length test: REGENERATED guard or the validated length extraVanity+extraSeal, obligation bsc_guards_ecrecover (model bsc_recover: Panic below max(extraSeal, 65) unless the guard returned Err)");
   ("x/xibc/clients/light-clients/bsc/types/header.go", "ecrecover", "index", "pubkey[1:]",
-   Benign, "crypto.Ecrecover returns a 65-byte public key when err == nil; Keccak256 returns 32 bytes");
+   BenignLocal, "crypto.Ecrecover returns a 65-byte public key when err == nil; Keccak256 returns 32 bytes");
   ("x/xibc/clients/light-clients/bsc/types/header.go", "encodeSigHeader", "index", "header.Extra[:len(header.Extra)-65]",
    (Guard (@bsc_recover_safe)), "only called from ecrecover after its length test: REGENERATED guard or the validated length extraVanity+extraSeal, obligation bsc_guards_ecrecover (model bsc_recover: Panic below max(extraSeal, 65) unless the guard returned Err)");
   ("x/xibc/clients/light-clients/bsc/types/header.go", "encodeSigHeader", "lib", "rlp.Encode(w, []interface{}{ chainId, header.ParentHash, header.UncleHash, header.Coinbase, header.Root, header.TxHash, header.ReceiptHash, header.Bloom, header...",
@@ -173,15 +170,15 @@ Definition site_table : list (string * string * string * string * just * string)
   ("x/xibc/clients/light-clients/bsc/types/store.go", "GetConsensusState", "lib", "store.Get(host.ConsensusStateKey(height))",
    Benign, "non-empty key built from a constant prefix");
   ("x/xibc/clients/light-clients/bsc/types/store.go", "GetHeightFromIterationKey", "index", "bigEndianBytes[0:8]",
-   Benign, "only called by IterateConsensusStateAscending on keys accepted by host.ParseConsensusStateKey (exact length prefix+16)");
+   BenignLocal, "only called by IterateConsensusStateAscending on keys accepted by host.ParseConsensusStateKey (exact length prefix+16)");
   ("x/xibc/clients/light-clients/bsc/types/store.go", "GetHeightFromIterationKey", "index", "bigEndianBytes[8:]",
-   Benign, "only called by IterateConsensusStateAscending on keys accepted by host.ParseConsensusStateKey (exact length prefix+16)");
+   BenignLocal, "only called by IterateConsensusStateAscending on keys accepted by host.ParseConsensusStateKey (exact length prefix+16)");
   ("x/xibc/clients/light-clients/bsc/types/store.go", "GetHeightFromIterationKey", "index", "iterKey[len([]byte(host.KeyConsensusStatePrefix+""/"")):]",
-   Benign, "only called by IterateConsensusStateAscending on keys accepted by host.ParseConsensusStateKey (exact length prefix+16)");
+   BenignLocal, "only called by IterateConsensusStateAscending on keys accepted by host.ParseConsensusStateKey (exact length prefix+16)");
   ("x/xibc/clients/light-clients/bsc/types/store.go", "GetHeightFromIterationKey", "lib", "sdk.BigEndianToUint64(heightBytes)",
-   Benign, "only called by IterateConsensusStateAscending on keys accepted by host.ParseConsensusStateKey (exact length prefix+16)");
+   BenignLocal, "only called by IterateConsensusStateAscending on keys accepted by host.ParseConsensusStateKey (exact length prefix+16)");
   ("x/xibc/clients/light-clients/bsc/types/store.go", "GetHeightFromIterationKey", "lib", "sdk.BigEndianToUint64(revisionBytes)",
-   Benign, "only called by IterateConsensusStateAscending on keys accepted by host.ParseConsensusStateKey (exact length prefix+16)");
+   BenignLocal, "only called by IterateConsensusStateAscending on keys accepted by host.ParseConsensusStateKey (exact length prefix+16)");
   ("x/xibc/clients/light-clients/bsc/types/store.go", "SetPendingValidators", "lib", "store.Delete([]byte(PrefixPendingValidators))",
    Benign, "constant non-empty key; the value is written only when non-empty");
   ("x/xibc/clients/light-clients/bsc/types/store.go", "SetPendingValidators", "lib", "store.Set([]byte(PrefixPendingValidators), bz)",
@@ -192,8 +189,6 @@ Definition site_table : list (string * string * string * string * just * string)
    Benign, "non-empty key ""recentSingers/.."", value = signer.Bytes() (20 bytes)");
   ("x/xibc/clients/light-clients/bsc/types/store.go", "deleteConsensusState", "lib", "clientStore.Delete(key)",
    Benign, "non-empty key built from a constant prefix");
-  ("x/xibc/clients/light-clients/bsc/types/store.go", "parseRecentSignerKey", "index", "keys[1]",
-   (Guard (@delete_all_signer_strict_no_panic)), "guarded by the len(keys) != 2 test just above (0d61436; model delete_all_signer_strict, which never panics; the pinned parser indexed unconditionally: delete_all_signer, C15_bsc_signer_key_refuted)");
   ("x/xibc/clients/light-clients/eth/types/hashing.go", "rlpHash", "assert", "hasherPool.Get().(crypto.KeccakState)",
    Benign, "the pool only ever holds values made by its New function (KeccakState)");
   ("x/xibc/clients/light-clients/eth/types/hashing.go", "rlpHash", "lib", "rlp.Encode(sha, x)",
@@ -205,15 +200,15 @@ Definition site_table : list (string * string * string * string * just * string)
   ("x/xibc/clients/light-clients/eth/types/store.go", "SetEthHeaderIndex", "lib", "clientStore.Set(EthHeaderIndexKey(header.Hash(), header.Height.RevisionHeight), headerBytes)",
    Benign, "non-empty formatted key; value = marshalled header / formatted key (non-empty)");
   ("x/xibc/clients/light-clients/tendermint/types/store.go", "SetIterationKey", "lib", "clientStore.Set(key, val)",
-   Benign, "fixed 16-byte buffer; non-empty keys with constant prefixes, 8-byte / key values");
+   BenignLocal, "fixed 16-byte buffer; non-empty keys with constant prefixes, 8-byte / key values");
   ("x/xibc/clients/light-clients/tendermint/types/store.go", "SetProcessedTime", "lib", "clientStore.Set(key, val)",
-   Benign, "fixed 16-byte buffer; non-empty keys with constant prefixes, 8-byte / key values");
+   BenignLocal, "fixed 16-byte buffer; non-empty keys with constant prefixes, 8-byte / key values");
   ("x/xibc/clients/light-clients/tendermint/types/store.go", "bigEndianHeightBytes", "index", "heightBytes[8:]",
-   Benign, "fixed 16-byte buffer; non-empty keys with constant prefixes, 8-byte / key values");
+   BenignLocal, "fixed 16-byte buffer; non-empty keys with constant prefixes, 8-byte / key values");
   ("x/xibc/clients/light-clients/tendermint/types/store.go", "bigEndianHeightBytes", "lib", "binary.BigEndian.PutUint64(heightBytes, height.GetRevisionNumber())",
-   Benign, "fixed 16-byte buffer; non-empty keys with constant prefixes, 8-byte / key values");
+   BenignLocal, "fixed 16-byte buffer; non-empty keys with constant prefixes, 8-byte / key values");
   ("x/xibc/clients/light-clients/tendermint/types/store.go", "bigEndianHeightBytes", "lib", "binary.BigEndian.PutUint64(heightBytes[8:], height.GetRevisionHeight())",
-   Benign, "fixed 16-byte buffer; non-empty keys with constant prefixes, 8-byte / key values");
+   BenignLocal, "fixed 16-byte buffer; non-empty keys with constant prefixes, 8-byte / key values");
   ("x/xibc/core/client/genesis.go", "InitGenesis", "lib", "client.ClientState.GetCachedValue()",
    (Guard (@gx_init_safe)), "GenesisState.Validate has type-asserted the cached values of every listed client / consensus state (gx_validate_clients_vals)");
   ("x/xibc/core/client/genesis.go", "InitGenesis", "lib", "consState.ConsensusState.GetCachedValue()",
@@ -265,9 +260,9 @@ Definition site_table : list (string * string * string * string * just * string)
   ("x/xibc/core/client/proposal_handler.go", "handleUpgradeClientProposal", "nilrecv", "upgradedClientState.GetLatestHeight().String()",
    Benign, "GetLatestHeight of all four client types returns a clienttypes.Height VALUE boxed in the interface (never nil)");
   ("x/xibc/core/client/types/codec.go", "UnpackClientState", "lib", "any.GetCachedValue()",
-   Benign, "guarded by the any == nil test at function entry");
+   BenignLocal, "guarded by the any == nil test at function entry");
   ("x/xibc/core/client/types/codec.go", "UnpackConsensusState", "lib", "any.GetCachedValue()",
-   Benign, "guarded by the any == nil test at function entry");
+   BenignLocal, "guarded by the any == nil test at function entry");
   ("x/xibc/core/client/types/encoding.go", "MustMarshalClientState", "panic", "panic(fmt.Errorf(""failed to encode client state: %w"", err))",
    Benign, "the value is a decoded proto message of a registered implementation (it was unpacked from an Any of that type)");
   ("x/xibc/core/client/types/encoding.go", "MustMarshalConsensusState", "panic", "panic(fmt.Errorf(""failed to encode consensus state: %w"", err))",
@@ -279,23 +274,19 @@ Definition site_table : list (string * string * string * string * just * string)
   ("x/xibc/core/client/types/genesis.go", "GenesisState.Validate", "lib", "consensusState.ConsensusState.GetCachedValue()",
    Benign, "a nil Any panics INSIDE the validation (modelled: gx_validate = Panic), i.e. such a genesis never counts as validated");
   ("x/xibc/core/client/types/height.go", "ParseChainID", "index", "splitStr[len(splitStr)-1]",
-   Benign, "argument = the local chain id (ctx.ChainID()); the regexp guarantees a non-empty digit suffix; overflow of the revision number of the LOCAL chain id is a configuration assumption listed in the evidence");
+   BenignLocal, "argument = the local chain id (ctx.ChainID()); the regexp guarantees a non-empty digit suffix; overflow of the revision number of the LOCAL chain id is a configuration assumption listed in the evidence");
   ("x/xibc/core/client/types/height.go", "ParseChainID", "panic", "panic(fmt.Sprintf(""regex allowed non-number value as last split element for chainID: %s"", chainID))",
-   Benign, "argument = the local chain id (ctx.ChainID()); the regexp guarantees a non-empty digit suffix; overflow of the revision number of the LOCAL chain id is a configuration assumption listed in the evidence");
-  ("x/xibc/core/client/types/height.go", "ParseHeight", "index", "splitStr[0]",
-   Benign, "guarded by len(splitStr) != 2");
-  ("x/xibc/core/client/types/height.go", "ParseHeight", "index", "splitStr[1]",
-   Benign, "guarded by len(splitStr) != 2");
+   BenignLocal, "argument = the local chain id (ctx.ChainID()); the regexp guarantees a non-empty digit suffix; overflow of the revision number of the LOCAL chain id is a configuration assumption listed in the evidence");
   ("x/xibc/core/host/parse.go", "ParseConsensusStateKey", "index", "heightBytes[8:]",
-   Benign, "guarded by len(key) == len(prefix)+16");
+   BenignLocal, "guarded by len(key) == len(prefix)+16");
   ("x/xibc/core/host/parse.go", "ParseConsensusStateKey", "index", "heightBytes[:8]",
-   Benign, "guarded by len(key) == len(prefix)+16");
+   BenignLocal, "guarded by len(key) == len(prefix)+16");
   ("x/xibc/core/host/parse.go", "ParseConsensusStateKey", "index", "key[len(prefix):]",
-   Benign, "guarded by len(key) == len(prefix)+16");
+   BenignLocal, "guarded by len(key) == len(prefix)+16");
   ("x/xibc/core/host/parse.go", "ParseConsensusStateKey", "lib", "binary.BigEndian.Uint64(heightBytes[8:])",
-   Benign, "guarded by len(key) == len(prefix)+16");
+   BenignLocal, "guarded by len(key) == len(prefix)+16");
   ("x/xibc/core/host/parse.go", "ParseConsensusStateKey", "lib", "binary.BigEndian.Uint64(heightBytes[:8])",
-   Benign, "guarded by len(key) == len(prefix)+16");
+   BenignLocal, "guarded by len(key) == len(prefix)+16");
   ("x/xibc/core/packet/genesis.go", "InitGenesis", "panic", "panic(""the xibc packet module account has not been set"")",
    Benign, "the module account is in the application maccPerms (GetModuleAccount creates it)");
   ("x/xibc/core/packet/keeper/keeper.go", "Keeper.GetModuleAccount", "lib", "k.accountKeeper.GetModuleAccount(ctx, types.SubModuleName)",
@@ -314,9 +305,132 @@ Definition site_key_eqb (a : string * string * string * string) (b : string * st
   let '(a1, a2, a3, a4) := a in let '(b1, b2, b3, b4) := b in
   String.eqb a1 b1 && String.eqb a2 b2 && String.eqb a3 b3 && String.eqb a4 b4.
 
+(** ** When is an inventoried site justified?
+
+    1. [row_covers]: a row for exactly this (file, function, kind, expression) - as before.
+    2. [auto_covers]: an index / slice site all of whose occurrences need [len(X) >= n] and sit under control flow that
+       establishes it (Proofs/HaltSiteAuto.v, [auto_ok_sound]; the facts are read off the source by the translator);
+       need 0 = X[i] under `for i := range X`, or Coin.IsNegative() under a dominating `X.Amount.IsNil()` = false
+       (the only library precondition the translator knows how to see).
+    3. [moved_covers]: the site is a RENAMED or MOVED copy of a site of the baseline (Proofs/HaltSitesBaseline.v = the
+       inventory the rows were written against): same package, kind and NORMALISED expression, and the baseline site
+       has a row whose justification travels with the expression ([Guard]: a lemma about the validated value / the
+       state, [Finding], [Benign]; not [BenignLocal]).  Either it is still in the same function (same package), or
+       it sits in a function that is NOT in the baseline and whose callers - followed upwards through such new
+       functions only (roots and functions without reachable callers do not qualify) - all end in baseline functions
+       from each of which such a site was reachable in the baseline call graph ("moved into a helper of the code
+       that contained it").  The inventory only ever concerns code reachable from the roots, so whether the helper
+       is exported does not matter.  NOT checked: that the helper is applied to the same values (the receiver /
+       arguments of the call) - that is left to the correspondence run, which executes the refactored code on the
+       corpus, the directed tour and the generated cases.  Anything else is an open obligation. *)
+Definition key4 := (string * string * string * string)%type.
+
+Definition row_just (k : key4) : option just :=
+  match find (fun r => let '(f, fn, kd, e, _, _) := r in site_key_eqb k (f, fn, kd, e)) site_table with
+  | Some (_, _, _, _, j, _) => Some j
+  | None => None
+  end.
+
+Definition row_covers (k : key4) : bool := match row_just k with Some j => negb (is_open j) | None => false end.
+
+Definition travels (j : just) : bool := match j with Guard _ | Finding | Benign => true | _ => false end.
+
+Definition auto_covers (k : key4) (count : N) : bool :=
+  let '(_, _, kd, _) := k in
+  (String.eqb kd "index" || String.eqb kd "lib") &&
+  match find (fun r => let '(f, fn, kd', e, _) := r in site_key_eqb k (f, fn, kd', e)) site_auto with
+  | Some (_, _, _, _, occ) => N.eqb (N.of_nat (List.length occ)) count && forallb auto_ok occ
+  | None => false
+  end.
+
+Definition fn_eqb (a b : string * string) : bool := String.eqb (fst a) (fst b) && String.eqb (snd a) (snd b).
+Definition in_baseline (f : string * string) : bool := existsb (fn_eqb f) baseline_functions.
+
+(** the part of "Recv.name" after the last dot starts with a lower-case letter *)
+Fixpoint last_segment (s acc : string) : string :=
+  match s with
+  | EmptyString => acc
+  | String c t => if Ascii.eqb c "."%char then last_segment t EmptyString else last_segment t (String.append acc (String c EmptyString))
+  end.
+Definition unexported (fn : string) : bool :=
+  match last_segment fn EmptyString with
+  | String c _ => let n := Ascii.N_of_ascii c in (97 <=? n)%N && (n <=? 122)%N
+  | EmptyString => false
+  end.
+
+Definition callers_of (f : string * string) : list (string * string) :=
+  match find (fun r => let '(fl, fn, _) := r in fn_eqb f (fl, fn)) function_callers with
+  | Some (_, _, cs) => cs
+  | None => []
+  end.
+
+(** nearest baseline functions above [f]; [None] when some way up leaves the new unexported helpers otherwise *)
+Fixpoint ancestors (fuel : nat) (f : string * string) : option (list (string * string)) :=
+  match fuel with
+  | O => None
+  | S fuel' =>
+      match callers_of f with
+      | [] => None
+      | cs =>
+          fold_left (fun acc c =>
+                       match acc with
+                       | None => None
+                       | Some l =>
+                           if in_baseline c then Some (c :: l)
+                           else match ancestors fuel' c with Some l' => Some (List.app l' l) | None => None end
+                       end) cs (Some [])
+      end
+  end.
+
+Definition norm_of (k : key4) : option (string * string) :=
+  match find (fun r => let '(f, fn, kd, e, _) := r in site_key_eqb k (f, fn, kd, e)) site_norm with
+  | Some (_, _, _, _, pn) => Some pn
+  | None => None
+  end.
+
+Definition baseline_callers_of (f : string * string) : list (string * string) :=
+  match find (fun r => let '(fl, fn, _) := r in fn_eqb f (fl, fn)) baseline_callers with
+  | Some (_, _, cs) => cs
+  | None => []
+  end.
+
+(** in the BASELINE call graph, [g] is [h] or one of the functions from which [h] was reachable *)
+Fixpoint reached_from (fuel : nat) (g h : string * string) : bool :=
+  fn_eqb g h ||
+  match fuel with
+  | O => false
+  | S fuel' => existsb (reached_from fuel' g) (baseline_callers_of h)
+  end.
+
+(** a baseline site with this kind / normalised expression whose row travels, in [g] itself ([same_pkg]: and in the
+    same package) or in a function that was reachable from [g] *)
+Definition baseline_match (local : bool) (g : string * string) (kd pkg nrm : string) : bool :=
+  existsb (fun b => let '(f, fn, kd', e, (pkg', nrm')) := b in
+             String.eqb kd kd' && String.eqb nrm nrm'
+             && (if local then fn_eqb g (f, fn) && String.eqb pkg pkg' else reached_from 8 g (f, fn))
+             && match row_just (f, fn, kd', e) with Some j => travels j | None => false end) baseline_sites.
+
+Definition moved_covers (k : key4) : bool :=
+  let '(f, fn, kd, _) := k in
+  match norm_of k with
+  | None => false
+  | Some (pkg, nrm) =>
+      if in_baseline (f, fn) then baseline_match true (f, fn) kd pkg nrm
+      else match ancestors 6 (f, fn) with
+           | Some (g :: gs) => forallb (fun g' => baseline_match false g' kd pkg nrm) (g :: gs)
+           | _ => false
+           end
+  end.
+
 Definition covered (s : string * string * string * string * N) : bool :=
-  let '(f, fn, k, e, _) := s in
-  existsb (fun r => let '(f', fn', k', e', j, _) := r in site_key_eqb (f, fn, k, e) (f', fn', k', e') && negb (is_open j)) site_table.
+  let '(f, fn, k, e, n) := s in
+  row_covers (f, fn, k, e) || auto_covers (f, fn, k, e) n || moved_covers (f, fn, k, e).
+
+(** How the inventoried sites are covered (reported in the evidence): rows / automatic / moved. *)
+Definition coverage_counts : N * N * N :=
+  (N.of_nat (List.length (filter (fun s => let '(f, fn, k, e, _) := s in row_covers (f, fn, k, e)) panic_sites)),
+   N.of_nat (List.length (filter (fun s => let '(f, fn, k, e, n) := s in negb (row_covers (f, fn, k, e)) && auto_covers (f, fn, k, e) n) panic_sites)),
+   N.of_nat (List.length (filter (fun s => let '(f, fn, k, e, n) := s in negb (row_covers (f, fn, k, e)) && negb (auto_covers (f, fn, k, e) n) && moved_covers (f, fn, k, e)) panic_sites))).
 
 (** Inventoried sites that the table does not justify. *)
 Definition uncovered_sites : list (string * string * string * string * N) := filter (fun s => negb (covered s)) panic_sites.
